@@ -97,36 +97,103 @@ def map_vec(M, v, s):
     return [sum(M[a][c] * s[c] for c in range(len(s))) + v[a] for a in range(len(s))]
 
 
-def call_adjust(S, obs, cols_all, pn):
-    """One real call.  cols_all: every parameter column of the Sample (t1..tP); pn: indices of the requested
-    parameters in the requested order, or None for parameter_names=None."""
-    from elfi.methods.post_processing import LinearAdjustment, adjust_posterior
+def enc(x):
+    """float found in a real Sample -> logged integer / code (the data of this check are integer valued)"""
+    x = float(x)
+    if x != x:
+        return NAN
+    if x == float("inf"):
+        return PINF
+    if x == float("-inf"):
+        return NINF
+    if x != int(x) or abs(x) >= PINF:
+        raise tlc.MachineryFailure("non-integer value %r in a sample that should be integer valued" % x)
+    return int(x)
+
+
+def direct_sample(S, cols_all, extra=None):
+    """a real elfi Sample holding the parameter columns t1..tP and the summary columns S1..SK"""
     from elfi.methods.results import Sample
-    k = len(obs)
-    model = summary_model(obs)
     names_all = ["t%d" % (j + 1) for j in range(len(cols_all))]
-    outputs = {n: np.array([dec(x) for x in col], dtype=float) for n, col in zip(names_all, cols_all)}
+    outputs = dict(extra or {})
+    for n, col in zip(names_all, cols_all):
+        outputs[n] = np.array([dec(x) for x in col], dtype=float)
+    for a in range(len(S[0])):
+        outputs["S%d" % (a + 1)] = np.array([dec(r[a]) for r in S], dtype=float)
+    return Sample("Rejection", outputs, names_all)
+
+
+_REJ = {}
+
+
+def rejection_model(k, npar, R, T, obs, nf_rate, shift):
+    """integer-valued inference model: randint priors, integer simulator noise, optional inf/nan summaries"""
+    import elfi
+    key = (k, npar, R, T, tuple(obs), nf_rate, shift)
+    if key in _REJ:
+        return _REJ[key]
+    m = elfi.ElfiModel(name="c17rej_%d" % len(_REJ))
+    pri = [elfi.Prior("randint", -T, T + 1, model=m, name="t%d" % (j + 1)) for j in range(npar)]
+
+    def sim(*ts, batch_size=1, random_state=None):
+        noise = random_state.randint(0, R + 1, size=(batch_size, k)).astype(float)
+        t = np.asarray(ts[0], dtype=float).reshape(-1, 1)
+        y = np.mod(noise + np.abs(t) * (1 + np.arange(k)) + shift, R + 1)
+        u = random_state.rand(batch_size, k)
+        y[u < nf_rate] = np.nan
+        y[u < nf_rate / 2] = np.inf
+        return y
+
+    elfi.Simulator(sim, *pri, model=m, name="sim", observed=np.array([[float(o) for o in obs]]))
+    sums = [elfi.Summary((lambda a_: (lambda y: y[:, a_]))(a), m["sim"], model=m, name="S%d" % (a + 1)) for a in range(k)]
+
+    def disc(*s, observed=None):
+        x = np.nan_to_num(np.asarray(s[0], dtype=float), nan=float(R), posinf=float(R), neginf=float(R)).reshape(-1)
+        return np.abs(x - np.asarray(observed[0], dtype=float).reshape(-1)[0])
+
+    elfi.Discrepancy(disc, *sums, model=m, name="d")
+    _REJ[key] = m
+    return m
+
+
+def rejection_sample(sp):
+    """a Sample produced by a real elfi.Rejection run on the integer-valued model"""
+    import elfi
+    m = rejection_model(sp["k"], sp["npar"], sp["R"], sp["T"], sp["obs"], sp["nf_rate"], sp.get("shift", 0))
+    snames = ["S%d" % (a + 1) for a in range(sp["k"])]
+    with time_limit(60):
+        rej = elfi.Rejection(m["d"], batch_size=sp["bs"], seed=sp["seed"], output_names=snames)
+        return rej.sample(sp["n"], quantile=sp["quantile"], bar=False), m
+
+
+def call_adjust(sample, model, k, names_all, pn, via_string=False):
+    """One real call.  pn: indices of the requested parameters in the requested order, or None for
+    parameter_names=None; via_string: adjustment='linear' (then the fitted coefficients are not observable)."""
+    from elfi.methods.post_processing import LinearAdjustment, adjust_posterior
     snames = ["S%d" % (a + 1) for a in range(k)]
-    for a, sn in enumerate(snames):
-        outputs[sn] = np.array([dec(r[a]) for r in S], dtype=float)
-    sample = Sample("Rejection", outputs, names_all)
     req = None if pn is None else [names_all[j] for j in pn]
     want = names_all if pn is None else req
-    ev = dict(res="ok", out=[], coef=[], warn=False, names=True, exc="")
+    ev = dict(res="ok", out=[], coef=[], hascoef=not via_string, warn=False, names=True, exc="")
     try:
         adj = LinearAdjustment()
         with warnings.catch_warnings(record=True) as wlist:
             warnings.simplefilter("always")
             with time_limit(10):
-                res = adjust_posterior(sample, model, snames, parameter_names=req, adjustment=adj)
+                if via_string:
+                    res = adjust_posterior(sample, model, snames, parameter_names=req)
+                else:
+                    res = adjust_posterior(sample, model, snames, parameter_names=req, adjustment=adj)
         ev["warn"] = any("Non-finite" in str(w.message) for w in wlist)
         ev["names"] = bool(list(res.parameter_names) == want and set(res.outputs) == set(want))
         ev["out"] = [[fxs(x) for x in np.asarray(res.outputs[n]).reshape(-1)] if n in res.outputs else [] for n in want]
-        ev["coef"] = [[fxs(c) for c in np.asarray(adj.regression_models[j].coef_).reshape(-1)]
-                      if j < len(adj.regression_models) else [] for j in range(len(want))]
-        for j in range(len(want)):
-            if len(ev["coef"][j]) != k:
-                ev["coef"][j] = [BIG] * k
+        if via_string:
+            ev["coef"] = [[0] * k for _ in want]
+        else:
+            ev["coef"] = [[fxs(c) for c in np.asarray(adj.regression_models[j].coef_).reshape(-1)]
+                          if j < len(adj.regression_models) else [] for j in range(len(want))]
+            for j in range(len(want)):
+                if len(ev["coef"][j]) != k:
+                    ev["coef"][j] = [BIG] * k
     except Hang:
         ev.update(res="hang")
     except Exception as ex:   # an event, judged by the trace spec
@@ -135,34 +202,51 @@ def call_adjust(S, obs, cols_all, pn):
 
 
 def record_adj(sc):
-    S, obs, cols = sc["S"], sc["obs"], sc["TH"]
-    k = len(obs)
     pn = sc.get("pn")
+    extra = None
+    if sc.get("source") == "rej":
+        sp = sc["rej"]
+        try:
+            sample, model = rejection_sample(sp)
+        except Exception as ex:
+            raise tlc.MachineryFailure("could not produce the Rejection sample of %r: %r" % (sp, ex))
+        k, obs = sp["k"], sp["obs"]
+        names_all = list(sample.parameter_names)
+        n = sample.n_samples
+        S = [[enc(sample.outputs["S%d" % (a + 1)][i]) for a in range(k)] for i in range(n)]
+        cols = [[enc(sample.outputs[nm][i]) for i in range(n)] for nm in names_all]
+        extra = {"d": sample.outputs["d"]}
+    else:
+        S, obs, cols = sc["S"], sc["obs"], sc["TH"]
+        k = len(obs)
+        names_all = ["t%d" % (j + 1) for j in range(len(cols))]
+        sample, model = direct_sample(S, cols), summary_model(obs)
     th = cols if pn is None else [cols[j] for j in pn]
     ident = [[1 if a == c else 0 for c in range(k)] for a in range(k)]
     events = []
-    e = call_adjust(S, obs, cols, pn)
+    e = call_adjust(sample, model, k, names_all, pn, via_string=bool(sc.get("via_string")))
     e.update(ev="adjust", S=S, obs=obs, M=ident, v=[0] * k)
     events.append(e)
     for (M, v) in sc.get("affs", []):
         S2, obs2 = map_rows(M, v, S), map_vec(M, v, obs)
-        e = call_adjust(S2, obs2, cols, pn)
+        e = call_adjust(direct_sample(S2, cols, extra), summary_model(obs2), k, names_all, pn)
         e.update(ev="affine", S=S2, obs=obs2, M=M, v=v)
         events.append(e)
     return dict(S=S, obs=obs, TH=th, events=events)
 
 
 # ------------------------------------------------------------------ model comparison
-def call_compare(ms, scale):
-    """One real call.  ms: [{d, nsim, w}]; scale None -> model_priors=None, else priors w/scale (dyadic)."""
-    from elfi.methods.model_selection import compare_models
+def direct_cmp_sample(m):
     from elfi.methods.results import Sample
-    samples = []
-    for m in ms:
-        n = len(m["d"])
-        samples.append(Sample("Rejection", {"t1": np.arange(n, dtype=float), "d": np.array([dec(x) for x in m["d"]], dtype=float)},
-                              ["t1"], discrepancy_name="d", n_sim=int(m["nsim"]), threshold=1.0))
-    priors = None if scale is None else [m["w"] / float(scale) for m in ms]
+    n = len(m["d"])
+    return Sample("Rejection", {"t1": np.arange(n, dtype=float), "d": np.array([dec(x) for x in m["d"]], dtype=float)},
+                  ["t1"], discrepancy_name="d", n_sim=int(m["nsim"]), threshold=1.0)
+
+
+def call_compare(samples, ws, scale):
+    """One real call.  scale None -> model_priors=None, else priors w/scale (dyadic, exact in floats)."""
+    from elfi.methods.model_selection import compare_models
+    priors = None if scale is None else [w / float(scale) for w in ws]
     ev = dict(res="ok", out=[], exc="")
     try:
         with warnings.catch_warnings():
@@ -178,16 +262,28 @@ def call_compare(ms, scale):
 
 
 def record_cmp(sc):
-    ms, scale = sc["ms"], sc.get("scale")
+    scale = sc.get("scale")
+    if sc.get("source") == "rej":
+        samples, ms = [], []
+        for sp, w in zip(sc["rej"], sc["ws"]):
+            try:
+                s, _m = rejection_sample(sp)
+            except Exception as ex:
+                raise tlc.MachineryFailure("could not produce the Rejection sample of %r: %r" % (sp, ex))
+            samples.append(s)
+            ms.append(dict(d=[enc(x) for x in np.asarray(s.discrepancies).reshape(-1)], nsim=int(s.n_sim), w=w))
+    else:
+        ms = sc["ms"]
+        samples = [direct_cmp_sample(m) for m in ms]
     n = len(ms)
+    ws = [m["w"] for m in ms]
     events = []
-    e = call_compare(ms, scale)
+    e = call_compare(samples, ws, scale)
     e.update(ev="compare", pi=list(range(1, n + 1)), ms=ms)
     events.append(e)
     for pi in sc.get("perms", []):
-        ms2 = [ms[k - 1] for k in pi]
-        e = call_compare(ms2, scale)
-        e.update(ev="permute", pi=list(pi), ms=ms2)
+        e = call_compare([samples[k - 1] for k in pi], [ws[k - 1] for k in pi], scale)
+        e.update(ev="permute", pi=list(pi), ms=[ms[k - 1] for k in pi])
         events.append(e)
     return dict(ms=ms, events=events)
 
@@ -271,7 +367,15 @@ def adj_scenarios(ctx):
             affs.append(random_aff(rnd, k))
         if not adj_safe(S, obs, cols):
             continue
-        out.append(dict(S=S, obs=obs, TH=cols, pn=pn, affs=[[M, v] for (M, v) in affs]))
+        out.append(dict(S=S, obs=obs, TH=cols, pn=pn, affs=[[M, v] for (M, v) in affs], via_string=rnd.random() < 0.2))
+    # (4) samples produced by real elfi.Rejection runs on an integer-valued model
+    for i in range(12 if ctx.quick else 120):
+        k = rnd.choice([1, 2])
+        R = rnd.choice([3, 5])
+        sp = dict(k=k, npar=rnd.choice([1, 2]), R=R, T=rnd.choice([2, 5]), obs=[rnd.randint(0, R) for _ in range(k)],
+                  nf_rate=rnd.choice([0.0, 0.2]), shift=rnd.randint(0, 2), bs=rnd.choice([4, 10]), seed=rnd.randint(0, 10 ** 6),
+                  n=rnd.randint(4, 10), quantile=rnd.choice([0.5, 0.25]))
+        out.append(dict(source="rej", rej=sp, pn=None, affs=[list(rnd.choice(AFF1 if k == 1 else AFF2))]))
     for sc in out:
         sc["kind"] = "adj"
         sc.setdefault("pn", None)
@@ -343,6 +447,17 @@ def cmp_scenarios(ctx):
             rnd.shuffle(p)
             perms.append(p)
         out.append(dict(ms=ms, scale=scale, perms=perms))
+    # samples produced by real elfi.Rejection runs (real n_sim, discrepancies, n_samples)
+    for i in range(8 if ctx.quick else 80):
+        M = rnd.choice([2, 3])
+        R = rnd.choice([3, 5])
+        obs = [rnd.randint(0, R)]
+        sps = [dict(k=1, npar=1, R=R, T=2, obs=obs, nf_rate=0.0, shift=j, bs=rnd.choice([4, 10]), seed=rnd.randint(0, 10 ** 6),
+                    n=rnd.randint(2, 5), quantile=rnd.choice([0.5, 0.25])) for j in range(M)]
+        pr = rnd.random() < 0.5
+        idx = list(range(1, M + 1))
+        rnd.shuffle(idx)
+        out.append(dict(source="rej", rej=sps, ws=[rnd.choice([1, 2, 3]) if pr else 1 for _ in range(M)], scale=4 if pr else None, perms=[idx]))
     for sc in out:
         sc["kind"] = "cmp"
     return out, n_small
@@ -355,12 +470,12 @@ def check_scenarios(ctx, scs):
     traces = {}
     if adj:
         trs = [record_adj(sc) for sc in adj]
-        vs = ctx.validate("LinAdjust_Trace", trs, chunk=600, name="adj")
+        vs = ctx.validate("LinAdjust_Trace", trs, chunk=max(50, -(-len(trs) // 8)), name="adj")
         for sc, tr, v in zip(adj, trs, vs):
             traces[id(sc)] = tr
-            k = len(sc["obs"])
-            n_fin = sum(1 for r in sc["S"] if all(is_fin(x) for x in r))
-            nonfin = any(not is_fin(x) for r in sc["S"] for x in r) or any(not is_fin(x) for c in sc["TH"] for x in c)
+            k = len(tr["obs"])
+            n_fin = sum(1 for r in tr["S"] if all(is_fin(x) for x in r))
+            nonfin = any(not is_fin(x) for r in tr["S"] for x in r) or any(not is_fin(x) for c in tr["TH"] for x in c)
             ctx.case(("adj", core_digest(sc)), nontrivial=(n_fin >= k + 2))
             ctx.trace_events += len(tr["events"])
             if v["verdict"] != "ok":
@@ -370,10 +485,10 @@ def check_scenarios(ctx, scs):
                 ctx.drifted(v["drift"], sc)
     if cmp_:
         trs = [record_cmp(sc) for sc in cmp_]
-        vs = ctx.validate("ModelCompare_Trace", trs, chunk=600, name="cmp")
+        vs = ctx.validate("ModelCompare_Trace", trs, chunk=max(50, -(-len(trs) // 8)), name="cmp")
         for sc, tr, v in zip(cmp_, trs, vs):
             traces[id(sc)] = tr
-            ctx.case(("cmp", core_digest(sc)), nontrivial=len(set(tuple(m["d"]) for m in sc["ms"])) > 1)
+            ctx.case(("cmp", core_digest(sc)), nontrivial=len(set(tuple(m["d"]) for m in tr["ms"])) > 1)
             ctx.trace_events += len(tr["events"])
             if v["verdict"] != "ok":
                 e = tr["events"][min(v["l"] - 2, len(tr["events"]) - 1)]
@@ -389,7 +504,7 @@ def core_digest(sc):
 
 
 # ------------------------------------------------------------------ O1 configurations
-def lin_cfg(k, npar, minn, maxn, svals, thvals, invs, affs="MCAffs", centred=True):
+def lin_cfg(k, npar, minn, maxn, svals, thvals, invs, affs="MCAffs", centred=True, obs="MCObs"):
     return """SPECIFICATION Spec
 CONSTANTS
   K = %d
@@ -399,13 +514,13 @@ CONSTANTS
   SVals <- %s
   ThVals <- %s
   RowTypes <- MCRowTypes
-  ObsSet <- MCObs
+  ObsSet <- %s
   Affs <- %s
   Grid <- MCGrid
   Centred = %s
 %s
 CHECK_DEADLOCK FALSE
-""" % (k, npar, minn, maxn, svals, thvals, affs, "TRUE" if centred else "FALSE",
+""" % (k, npar, minn, maxn, svals, thvals, obs, affs, "TRUE" if centred else "FALSE",
        "\n".join("INVARIANT " + i for i in invs))
 
 
@@ -430,35 +545,41 @@ CHECK_DEADLOCK FALSE
 
 
 CMP_INVS = ["SharesOfSmallest", "AllSharesReachable", "SelectionsArePrefixes", "SumOne", "Proportional", "Permutes"]
-CMP_ACTS = ["AddModel", "Compare", "Refuse"]
+CMP_ACTS = ["AddModel", "CompareAny", "RefuseAny"]
 
 
 def design_level(ctx):
     W = 8
     q = ctx.quick
     # regression adjustment
-    ctx.tlc("MC_LinAdjust", "MC_LinAdjust_k2", cfg_text=lin_cfg(2, 1, 1, 3 if q else 4, "SV_nan", "TV_pinf", LIN_INVS),
-            expect_actions=LIN_ACTS, workers=W, timeout=1500)
-    ctx.tlc("MC_LinAdjust", "MC_LinAdjust_k1p2", cfg_text=lin_cfg(1, 2, 1, 3 if q else 4, "SV_ninf", "TV_nan", LIN_INVS),
-            expect_actions=LIN_ACTS, workers=W, timeout=1500)
-    ctx.tlc("MC_LinAdjust", "MC_LinAdjust_k1", cfg_text=lin_cfg(1, 1, 1, 5 if q else 6, "SV_wide", "TV_neg", LIN_INVS),
-            expect_actions=LIN_ACTS, workers=W, timeout=1500)
+    if q:
+        runs = [("k2", lin_cfg(2, 1, 1, 3, "SV_nan", "TV_pinf", LIN_INVS, obs="MCObsOne")),
+                ("k1p2", lin_cfg(1, 2, 1, 3, "SV_ninf", "TV_nan3", LIN_INVS)),
+                ("k1", lin_cfg(1, 1, 1, 4, "SV_wide", "TV_neg", LIN_INVS))]
+    else:
+        runs = [("k2", lin_cfg(2, 1, 1, 3, "SV_nan", "TV_pinf", LIN_INVS)),
+                ("k2n4", lin_cfg(2, 1, 4, 4, "SV_nan", "TV_pinf", LIN_INVS, obs="MCObsOne")),
+                ("k1p2", lin_cfg(1, 2, 1, 4, "SV_ninf", "TV_nan3", LIN_INVS)),
+                ("k1", lin_cfg(1, 1, 1, 6, "SV_wide", "TV_neg", LIN_INVS))]
+    for (name, cfg) in runs:
+        ctx.tlc("MC_LinAdjust", "MC_LinAdjust_" + name, cfg_text=cfg, expect_actions=LIN_ACTS, workers=W, timeout=2400)
     # negative controls (must be refuted)
-    ctx.tlc("MC_LinAdjust", "MC_LinAdjust_neg_nointercept", cfg_text=lin_cfg(2, 1, 1, 3, "SV_fin", "TV_fin", LIN_INVS, centred=False),
+    ctx.tlc("MC_LinAdjust", "MC_LinAdjust_neg_nointercept", cfg_text=lin_cfg(2, 1, 1, 3, "SV_fin", "TV_fin", ["NormalEquations", "LeastSquares"], centred=False),
             expect_ok=False, workers=W, timeout=600)
     ctx.tlc("MC_LinAdjust", "MC_LinAdjust_neg_singular", cfg_text=lin_cfg(2, 1, 1, 3, "SV_fin", "TV_fin", ["AffineInvariant"], affs="MCAffsSingular"),
             expect_ok=False, workers=W, timeout=600)
     ctx.tlc("MC_LinAdjust", "MC_LinAdjust_neg_degenerate", cfg_text=lin_cfg(2, 1, 1, 3, "SV_fin", "TV_fin", ["AffineInvariantAlsoDegenerate"]),
             expect_ok=False, workers=W, timeout=600)
     # model comparison
-    ctx.tlc("MC_ModelCompare", "MC_ModelCompare_m2", cfg_text=cmp_cfg(2, 2, [0, 1, NAN] if q else [0, 1, PINF, NAN], [2, 3], [0, 1, 2], CMP_INVS),
-            expect_actions=CMP_ACTS, workers=W, timeout=1500)
     if q:
-        ctx.tlc("MC_ModelCompare", "MC_ModelCompare_m3", cfg_text=cmp_cfg(3, 1, [0, 1, 2], [1, 2], [1, 2], CMP_INVS),
-                expect_actions=CMP_ACTS[:2], workers=W, timeout=1500)
+        runs = [("m2", cmp_cfg(2, 2, [0, 1, NAN], [2, 3], [0, 1, 2], CMP_INVS), CMP_ACTS),
+                ("m3", cmp_cfg(3, 1, [0, 1, 2], [1, 2], [1, 2], CMP_INVS), CMP_ACTS[:2])]
     else:
-        ctx.tlc("MC_ModelCompare", "MC_ModelCompare_m3", cfg_text=cmp_cfg(3, 2, [0, 1], [1, 2], [1, 2], CMP_INVS),
-                expect_actions=CMP_ACTS[:2], workers=W, timeout=1500)
+        runs = [("m2", cmp_cfg(2, 2, [0, 1, PINF, NAN], [2, 3], [0, 1, 2], CMP_INVS), CMP_ACTS),
+                ("m2s3", cmp_cfg(2, 3, [0, 1, NAN], [2, 3], [0, 1], CMP_INVS), CMP_ACTS),
+                ("m3", cmp_cfg(3, 2, [0, 1], [1, 2], [1, 2], CMP_INVS), CMP_ACTS[:2])]
+    for (name, cfg, acts) in runs:
+        ctx.tlc("MC_ModelCompare", "MC_ModelCompare_" + name, cfg_text=cfg, expect_actions=acts, workers=W, timeout=2400)
     ctx.tlc("MC_ModelCompare", "MC_ModelCompare_neg_times_nsim", cfg_text=cmp_cfg(2, 2, [0, 1], [2, 3], [1, 2], ["Proportional"], variant="times-nsim"),
             expect_ok=False, workers=W, timeout=600)
     ctx.tlc("MC_ModelCompare", "MC_ModelCompare_neg_determined", cfg_text=cmp_cfg(2, 2, [0, 1], [2, 3], [1, 2], ["DeterminedAlways"]),
